@@ -341,3 +341,61 @@ def warn_boundary_family(seed, n):
     return summarize(run_pool(warn_boundary_case, [(seed, i) for i in range(n)]),
                      "probe Source->component->ILoad, both polarities; limits for a random subset of the kind's keys placed 1 % inside / outside the observed quantity or exactly on it (boundary not asserted); signed limits on negative rails",
                      "13 component forms x random key subsets")
+
+
+# ============================================================================================================ C08
+def rail_case(args):
+    seed, idx = args
+    rnd = _rnd(seed, idx)
+    recipe = gen.random_system(rnd, max_nodes=8, n_sources=(1, 3), p_mux=0.5, p_phases=0.5, p_rails=rnd.choice([0.0, 0.5, 0.9]), p_limits=0.5, p_byrail=0.4, p_dead_source=0.15)
+    out = {"hash": _hash(recipe), "failures": [], "nontrivial": True, "sample": None, "outcome": None}
+    s, _ = gen.build(recipe); m = Model.of(recipe)
+    kw = dict(ta=30.0)
+    oc, df = _solve_outcome(s, **kw); out["outcome"] = oc
+    if oc != "table": return out
+    def F(key, text): out["failures"].append({"key": key, "text": text, "props": ["C08"], "recipe": recipe})
+    try:
+        rr = s.rail_rep(**kw)
+    except Exception as e:
+        F("rail.exception", "rail_rep() raised %s: %s" % (type(e).__name__, str(e)[:80])); return out
+    has_rails = any(n.rail for n in m.nodes.values())
+    if not has_rails:
+        if rr is None or rr.to_string() != df.to_string(): F("rail.norails", "no rails defined: rail_rep() differs from solve()")
+        return out
+    if rr is None: F("rail.none", "rails are defined but rail_rep() returned None"); return out
+    rows, _ = oracle.rows_by_key(df)
+    phases = list(m.phases) if m.phases else [""]
+    got = {}
+    for r in rr.to_dict("records"):
+        k = (r["Rail"], r.get("Phase", ""))
+        if k in got: F("rail.duplicate", "rail %s listed twice" % (k,))
+        got[k] = r
+    owner = {n.rail: n.name for n in m.nodes.values() if n.rail}
+    for ph in phases:
+        fed = {}
+        for name, node in m.nodes.items():
+            if not node.parents: continue
+            sp = oracle.select_parent(m, node, rows, ph) if len(node.parents) > 1 else node.parents[0]
+            if sp is None: sp = node.parents[0]
+            r_ = m.nodes[sp].rail
+            if r_: fed.setdefault(r_, []).append(name)
+        want = set(fed); have = {k[0] for k in got if k[1] == ph}
+        if want != have: F("rail.set", "[%s] rails listed %s, rails feeding at least one component %s" % (ph, sorted(have), sorted(want))); continue
+        for r_, members in fed.items():
+            g = got[(r_, ph)]
+            vo = float(rows[(owner[r_], ph)]["Vout (V)"])
+            ii = sum(float(rows[(c, ph)]["Iin (A)"]) for c in members); pw = sum(float(rows[(c, ph)]["Power (W)"]) for c in members); ls = sum(float(rows[(c, ph)]["Loss (W)"]) for c in members)
+            if not oracle.close(g["Voltage (V)"], vo): F("rail.voltage", "[%s] rail %s voltage %g != output voltage %g of its owner %s" % (ph, r_, g["Voltage (V)"], vo, owner[r_]))
+            if not oracle.close(g["Current (A)"], ii) or not oracle.close(g["Power (W)"], pw) or not oracle.close(g["Loss (W)"], ls):
+                F("rail.sums", "[%s] rail %s current/power/loss %g/%g/%g != sums over the components it feeds %s: %g/%g/%g" % (ph, r_, g["Current (A)"], g["Power (W)"], g["Loss (W)"], members, ii, pw, ls))
+            toks = set(); [toks.update(str(rows[(c, ph)]["Warnings"]).split()) for c in members]
+            gt = set(str(g["Warnings"]).replace(",", " ").split())
+            if toks != gt: F("rail.warnings", "[%s] rail %s warnings %s != union of its consumers' warnings %s" % (ph, r_, sorted(gt), sorted(toks)))
+    if idx < 3: out["sample"] = {"system": gen.short(recipe)[:8], "rails": sorted(owner), "verdict": "%d failures" % len(out["failures"])}
+    return out
+
+
+def rail_family(seed, n):
+    return summarize(run_pool(rail_case, [(seed, i) for i in range(n)]),
+                     "random systems with rails on a random subset of non-load components (parents addressed by name or by rail), PMux and phases; the rail report is recomputed from the solve() table and the reference model (supply of each component = its selected input); distinct by recipe hash",
+                     "trees <= 8 components, 1-3 sources")
